@@ -597,6 +597,13 @@ mod autodetect {
     macro_rules! dispatch {
         ($fn:ident, $ty:ty) => {
             fn dispatch_init() -> $ty {
+                #[cfg(cryptocorrosion_verif)]
+                match crate::verif::level() {
+                    1 => return sse2::$fn,
+                    2 => return ssse3::$fn,
+                    3 => return aes::$fn,
+                    _ => {}
+                }
                 if is_x86_feature_detected!("aes") {
                     aes::$fn
                 } else if is_x86_feature_detected!("ssse3") {
